@@ -1347,6 +1347,45 @@ func (c *Ctx) checkDirectoryTLS() {
 		return nil
 	}
 	var rawOpts ssa.Value = runCall.Common().Args[2]
+	// every append that can feed the options (`if !noTLS {append}`; or one append per arm of a switch)
+	var allAppends []*ssa.Call
+	{
+		seenV := map[ssa.Value]bool{}
+		var collect func(v ssa.Value, depth int)
+		collect = func(v ssa.Value, depth int) {
+			if v == nil || depth > 8 || seenV[v] {
+				return
+			}
+			seenV[v] = true
+			switch x := v.(type) {
+			case *ssa.Phi:
+				for _, e := range x.Edges {
+					collect(e, depth+1)
+				}
+			case *ssa.Call:
+				if b, ok := x.Common().Value.(*ssa.Builtin); ok && b.Name() == "append" {
+					allAppends = append(allAppends, x)
+					collect(x.Common().Args[0], depth+1)
+				}
+			case *ssa.UnOp:
+				if x.Op == token.MUL {
+					stores, _ := an.CellStores(x.X)
+					for _, st := range stores {
+						collect(st.Val, depth+1)
+					}
+				}
+			}
+		}
+		collect(rawOpts, 0)
+	}
+	isTLSAppend := func(in ssa.Instruction) bool {
+		for _, a := range allAppends {
+			if ssa.Instruction(a) == in {
+				return true
+			}
+		}
+		return false
+	}
 	if ap := findAppend(rawOpts, 0); ap != nil {
 		if list, ok := S.variadicOptions(ap.Common().Args[1]); ok && len(list) == 1 && list[0].Ctor.Fn.Name() == "WithTLSConfig" && an.FuncPkgPath(list[0].Ctor.Fn) == G {
 			cfg := list[0].Args[0]
@@ -1428,6 +1467,25 @@ func (c *Ctx) checkDirectoryTLS() {
 						}
 					}
 				})
+				// several appends: each must be the same WithTLSConfig(<that field>) under !withNoTLS
+				for _, o := range allAppends {
+					if o == ap {
+						continue
+					}
+					lst, okL := S.variadicOptions(o.Common().Args[1])
+					same := okL && len(lst) == 1 && lst[0].Ctor.Fn.Name() == "WithTLSConfig" && an.FuncPkgPath(lst[0].Ctor.Fn) == G
+					if same {
+						ld, isLd := an.Strip(lst[0].Args[0]).(*ssa.UnOp)
+						same = isLd && ld.Op == token.MUL
+						if same {
+							fa, isFA := ld.X.(*ssa.FieldAddr)
+							same = isFA && an.TypeIs(fa.X.Type(), TD, "Directory") && an.FieldAddrName(fa) == cfgField
+						}
+					}
+					if !same || !noTLSFact(o.Block()) {
+						good = false
+					}
+				}
 				if good && noTLSFact(ap.Block()) {
 					// every path with !withNoTLS to the Run go passes the append
 					if len(tlsIfs) >= 1 {
@@ -1443,7 +1501,7 @@ func (c *Ctx) checkDirectoryTLS() {
 						if goRun == nil && runCall.Parent() == start {
 							goRun = runCall
 						}
-						if goRun != nil && an.Search(an.Point{B: tlsSucc, I: 0}, isInstr(goRun), isInstr(ap)) == nil {
+						if goRun != nil && an.Search(an.Point{B: tlsSucc, I: 0}, isInstr(goRun), isTLSAppend) == nil {
 							okStart = true
 						}
 					}
@@ -1458,9 +1516,62 @@ func (c *Ctx) checkDirectoryTLS() {
 // derivesFromSelfSignedCA: v is bytes of a buffer that pem.Encode filled from
 // the DER returned by x509.CreateCertificate(_, ca, ca, ...) (template == parent).
 func derivesFromSelfSignedCA(v ssa.Value, fn *ssa.Function) bool {
-	// v = (*bytes.Buffer).Bytes(buf)
+	// the DER of a self-signed certificate: x509.CreateCertificate(_, ca, ca, ...)#0
+	selfSignedDER := func(d ssa.Value) bool {
+		ex, ok := an.Strip(d).(*ssa.Extract)
+		if !ok || ex.Index != 0 {
+			return false
+		}
+		cc, ok := ex.Tuple.(*ssa.Call)
+		if !ok || !an.CalleeIs(cc.Common(), "crypto/x509", "CreateCertificate") {
+			return false
+		}
+		a := cc.Common().Args
+		return an.Strip(a[1]) == an.Strip(a[2])
+	}
+	// the Bytes field of a &pem.Block{...} literal
+	blockBytes := func(b ssa.Value) ssa.Value {
+		blk, ok := an.Strip(b).(*ssa.Alloc)
+		if !ok {
+			return nil
+		}
+		for _, r := range *blk.Referrers() {
+			if fa, ok := r.(*ssa.FieldAddr); ok && an.FieldAddrName(fa) == "Bytes" {
+				for _, rr := range *fa.Referrers() {
+					if st, ok := rr.(*ssa.Store); ok {
+						return st.Val
+					}
+				}
+			}
+		}
+		return nil
+	}
 	call, ok := an.Strip(v).(*ssa.Call)
-	if !ok || !an.CalleeIs(call.Common(), "bytes", "(*Buffer).Bytes") {
+	if !ok {
+		return false
+	}
+	// v = pem.EncodeToMemory(&pem.Block{Bytes: der})
+	if an.CalleeIs(call.Common(), "encoding/pem", "EncodeToMemory") {
+		d := blockBytes(call.Common().Args[0])
+		return d != nil && selfSignedDER(d)
+	}
+	// v = pemBlock(_, der): a module helper that returns pem.EncodeToMemory(&pem.Block{Bytes: <its parameter>})
+	if g := call.Common().StaticCallee(); g != nil && an.InModule(g) && len(g.Blocks) > 0 && len(an.Returns(g)) == 1 {
+		if res := an.ReturnResults(an.Returns(g)[0]); len(res) == 1 {
+			if ic, isC := an.Strip(res[0]).(*ssa.Call); isC && an.CalleeIs(ic.Common(), "encoding/pem", "EncodeToMemory") {
+				if d := blockBytes(ic.Common().Args[0]); d != nil {
+					for i, p := range g.Params {
+						if an.Strip(d) == ssa.Value(p) && i < len(call.Common().Args) {
+							return selfSignedDER(call.Common().Args[i])
+						}
+					}
+				}
+			}
+		}
+		return false
+	}
+	// v = (*bytes.Buffer).Bytes(buf)
+	if !an.CalleeIs(call.Common(), "bytes", "(*Buffer).Bytes") {
 		return false
 	}
 	buf := an.Strip(call.Common().Args[0])
